@@ -372,7 +372,7 @@ class Harness:
         return clause
 
     deadline_quick = 900
-    deadline_thorough = 5400
+    deadline_thorough = 2700
 
     def bounds_text(self, tier):
         return ''
